@@ -177,6 +177,15 @@ fn all_shapes() -> Vec<Shape> {
     v
 }
 
+/// The three classic non-answers, used where the full product is not offered.
+fn classic_shapes() -> Vec<Shape> {
+    vec![
+        Shape { rcode: 0, qsel: QSel::OtherName, tc: false },
+        Shape { rcode: 2, qsel: QSel::Empty, tc: false },
+        Shape { rcode: 3, qsel: QSel::OtherName, tc: false },
+    ]
+}
+
 /// Shapes sent under a WRONG id: every rcode with the request's question and
 /// with an empty question (the header-only form), TC=0.
 fn wrong_id_shapes() -> Vec<Shape> {
@@ -564,6 +573,8 @@ struct Global {
     thorough: bool,
     /// offer every cut point of a frame (otherwise a fixed handful)
     all_cuts: AtomicBool,
+    /// offer the full reply grammar (otherwise the three classic non-answers)
+    full_shapes: AtomicBool,
     stats: Stats,       // counters + samples + distinct non-trivial cases
     states: Stats,      // distinct quiescent states
     transitions: AtomicU64,
@@ -686,7 +697,7 @@ impl<'a> Core<'a> {
     }
     fn violate(&mut self, sig: String, what: String) {
         let choices = self.ch.lock().unwrap().choices();
-        let case = json!({"transport": self.tname, "cfg": self.cfg, "choices": choices, "all_cuts": self.g.all_cuts.load(Ordering::Relaxed), "log": self.log});
+        let case = json!({"transport": self.tname, "cfg": self.cfg, "choices": choices, "all_cuts": self.g.all_cuts.load(Ordering::Relaxed), "full_shapes": self.g.full_shapes.load(Ordering::Relaxed), "log": self.log});
         if self.g.verbose {
             println!("  !! {sig}: {what}");
         }
@@ -1015,13 +1026,13 @@ impl<'a> Core<'a> {
         let outcome = format!("{}|{}|{}", self.tname, self.cfg, self.req_status());
         g.outcomes.distinct(fnv(outcome.as_bytes()));
         if dev > 0 {
-            g.stats.distinct(fnv(format!("{}|{}|{}|{:?}", self.tname, self.cfg, g.all_cuts.load(Ordering::Relaxed), ch.choices()).as_bytes()));
+            g.stats.distinct(fnv(format!("{}|{}|{}|{}|{:?}", self.tname, self.cfg, g.all_cuts.load(Ordering::Relaxed), g.full_shapes.load(Ordering::Relaxed), ch.choices()).as_bytes()));
         }
         self.counters.insert(format!("{}.executions", self.tname), 1);
         *self.counters.entry(format!("{}.deviations.{dev}", self.tname)).or_insert(0) += 1;
         g.stats.merge_counts(&self.counters);
         if dev >= 2 {
-            let key = fnv(format!("{}|{}|{:?}|{}", self.tname, self.cfg, ch.choices(), g.all_cuts.load(Ordering::Relaxed)).as_bytes());
+            let key = fnv(format!("{}|{}|{:?}|{}|{}", self.tname, self.cfg, ch.choices(), g.all_cuts.load(Ordering::Relaxed), g.full_shapes.load(Ordering::Relaxed)).as_bytes());
             let mut sm = g.samples.lock().unwrap();
             if sm.len() < 8 || sm.keys().next_back().map(|k| key < *k).unwrap_or(true) {
                 // logs of the datagram transports contain the random request IDs: leave them out
@@ -1158,6 +1169,7 @@ async fn run_stream(g: &Global, cfg: &StreamCfg, ch: Arc<Mutex<Chooser>>) {
     let mut peer = PeerConn { st: st.clone(), fatal: false, tail: None };
     let mut entries: Vec<Entry> = Vec::new();
     let all = g.all_cuts.load(Ordering::Relaxed);
+    let full = g.full_shapes.load(Ordering::Relaxed);
 
     for _step in 0..64 {
         core.quiesce(&mut tr);
@@ -1259,14 +1271,9 @@ async fn run_stream(g: &Global, cfg: &StreamCfg, ch: Arc<Mutex<Chooser>>) {
                 // the reply grammar: for every open request with up to two
                 // callers, for the oldest open request with three, and only
                 // the three classic shapes in the six-caller slot-recycling case
-                if cfg.plan.len() <= 2 || (cfg.plan.len() == 3 && e == open[0]) {
-                    for shp in all_shapes() {
-                        menu.push(SAct::Shaped(e, shp));
-                    }
-                } else {
-                    menu.push(SAct::Shaped(e, Shape { rcode: 0, qsel: QSel::OtherName, tc: false }));
-                    menu.push(SAct::Shaped(e, Shape { rcode: 2, qsel: QSel::Empty, tc: false }));
-                    menu.push(SAct::Shaped(e, Shape { rcode: 3, qsel: QSel::OtherName, tc: false }));
+                let offered = if full && (cfg.plan.len() <= 2 || (cfg.plan.len() == 3 && e == open[0])) { all_shapes() } else { classic_shapes() };
+                for shp in offered {
+                    menu.push(SAct::Shaped(e, shp));
                 }
             }
             // wrong IDs: other open IDs, the most recently closed free ID, a never used ID
@@ -1285,7 +1292,7 @@ async fn run_stream(g: &Global, cfg: &StreamCfg, ch: Arc<Mutex<Chooser>>) {
                 }
             }
             // error replies under an ID nobody (or somebody else) is waiting on
-            if let Some(&e0) = open.first().filter(|_| cfg.plan.len() <= 3) {
+            if let Some(&e0) = open.first().filter(|_| full && cfg.plan.len() <= 3) {
                 let mut targets: Vec<u16> = open_ids.iter().copied().filter(|t| *t != entries[e0].id).collect();
                 if let Some(f) = freed {
                     targets.push(f);
@@ -1306,7 +1313,7 @@ async fn run_stream(g: &Global, cfg: &StreamCfg, ch: Arc<Mutex<Chooser>>) {
             for c in closed {
                 menu.push(SAct::Stale(c));
                 for rc in RCODES {
-                    if rc != 0 {
+                    if rc == 3 || (full && rc != 0) {
                         menu.push(SAct::StaleErr(c, rc));
                     }
                 }
@@ -1812,7 +1819,7 @@ async fn run_dgram(g: &Global, cfg: &DgramCfg, ch: Arc<Mutex<Chooser>>) {
             menu.push(DAct::WrongId(wi));
             // the reply grammar: for every waiting caller with up to two
             // callers, for the first waiting caller with three
-            if cfg.plan.len() <= 2 || wi == 0 {
+            if g.full_shapes.load(Ordering::Relaxed) && (cfg.plan.len() <= 2 || wi == 0) {
                 for shp in all_shapes() {
                     menu.push(DAct::Shaped(wi, shp, true));
                 }
@@ -1820,9 +1827,9 @@ async fn run_dgram(g: &Global, cfg: &DgramCfg, ch: Arc<Mutex<Chooser>>) {
                     menu.push(DAct::Shaped(wi, shp, false));
                 }
             } else {
-                menu.push(DAct::Shaped(wi, Shape { rcode: 0, qsel: QSel::OtherName, tc: false }, true));
-                menu.push(DAct::Shaped(wi, Shape { rcode: 2, qsel: QSel::Empty, tc: false }, true));
-                menu.push(DAct::Shaped(wi, Shape { rcode: 3, qsel: QSel::OtherName, tc: false }, true));
+                for shp in classic_shapes() {
+                    menu.push(DAct::Shaped(wi, shp, true));
+                }
             }
             menu.push(DAct::Garbage(wi, 0));
             menu.push(DAct::Garbage(wi, 11));
@@ -2810,6 +2817,14 @@ enum Case {
 }
 
 impl Case {
+    fn callers(&self) -> usize {
+        match self {
+            Case::Stream(c) => c.plan.len(),
+            Case::Dgram(c) => c.plan.len(),
+            Case::Multi(c) => c.plan.len(),
+            Case::Combo(c) => c.plan.len(),
+        }
+    }
     fn tname(&self) -> &'static str {
         match self {
             Case::Stream(_) => "stream",
@@ -2862,7 +2877,8 @@ fn run_case(g: &Global, case: &Case, ch: &mut Chooser) {
     {
         let prefix = shared.lock().unwrap().clone();
         let all_cuts = g.all_cuts.load(Ordering::Relaxed);
-        g.wd.enter(move || json!({"transport": case.tname(), "cfg": case.cfg_json(), "all_cuts": all_cuts, "choices_prefix_debug": format!("{prefix:?}"), "note": "the execution that follows this choice prefix with default choices did not terminate"}));
+        let full_shapes = g.full_shapes.load(Ordering::Relaxed);
+        g.wd.enter(move || json!({"transport": case.tname(), "cfg": case.cfg_json(), "all_cuts": all_cuts, "full_shapes": full_shapes, "choices_prefix_debug": format!("{prefix:?}"), "note": "the execution that follows this choice prefix with default choices did not terminate"}));
     }
     let rt = tokio::runtime::Builder::new_current_thread().enable_time().start_paused(true).build().expect("runtime");
     let sh2 = shared.clone();
@@ -3005,6 +3021,7 @@ fn main() {
         ctx: ctx.clone(),
         thorough,
         all_cuts: AtomicBool::new(false),
+        full_shapes: AtomicBool::new(true),
         stats: Stats::new(),
         states: Stats::new(),
         transitions: AtomicU64::new(0),
@@ -3020,6 +3037,7 @@ fn main() {
         let v: Value = serde_json::from_str(&text).expect("replay json");
         let case = &v["case"];
         g.all_cuts.store(case["all_cuts"].as_bool().unwrap_or(false), Ordering::Relaxed);
+        g.full_shapes.store(case["full_shapes"].as_bool().unwrap_or(true), Ordering::Relaxed);
         let choices: Vec<u32> = case["choices"].as_array().expect("choices").iter().map(|c| c.as_u64().unwrap() as u32).collect();
         let t = case["transport"].as_str().unwrap_or("");
         let want = case["cfg"].to_string();
@@ -3041,31 +3059,40 @@ fn main() {
     let mut per_cfg = Vec::new();
     let mut capped_any = false;
     let cases = all_cases();
-    // (all cut points?, deviation bound, stream callers min..=max, other transports too?)
-    // quick:    every cut point, <= 2 deviations, everything up to 3 callers;
+    // Pass = (all cut points?, deviation bound, callers min..=max, transports
+    // other than stream too?, full reply grammar?).
+    // quick:    every cut point, full grammar, <= 2 deviations, everything up to 3 callers;
     //           handful of cut points, <= 2 deviations, the 6-caller two-wave stream case.
-    // thorough: handful of cut points, <= 3 deviations, everything up to 3 callers;
-    //           every cut point, <= 2 deviations, stream with 3 callers;
-    //           every cut point, <= 3 deviations, stream with <= 2 callers;
-    //           handful of cut points, <= 2 deviations, the 6-caller two-wave stream case.
-    let passes: Vec<(bool, usize, usize, usize, bool)> = if thorough {
-        vec![(false, 3, 1, 3, true), (true, 2, 3, 3, false), (true, 3, 1, 2, false), (false, 2, 4, 8, false)]
+    // thorough: the two quick passes, plus
+    //           handful of cut points, classic replies, <= 3 deviations, everything up to 3 callers;
+    //           every cut point, classic replies, <= 3 deviations, stream with <= 2 callers;
+    //           handful of cut points, full grammar, <= 3 deviations, everything with 1 caller.
+    let passes: Vec<(bool, usize, usize, usize, bool, bool)> = if thorough {
+        vec![
+            (true, 2, 1, 3, true, true),
+            (false, 2, 4, 8, false, false),
+            (false, 3, 1, 3, true, false),
+            (true, 3, 1, 2, false, false),
+            (false, 3, 1, 1, true, true),
+        ]
     } else {
-        vec![(true, 2, 1, 3, true), (false, 2, 4, 8, false)]
+        vec![(true, 2, 1, 3, true, true), (false, 2, 4, 8, false, false)]
     };
-    for (all_cuts, bound, min_callers, max_callers, others) in passes.into_iter() {
+    for (all_cuts, bound, min_callers, max_callers, others, full_shapes) in passes.into_iter() {
         g.all_cuts.store(all_cuts, Ordering::Relaxed);
+        g.full_shapes.store(full_shapes, Ordering::Relaxed);
         for case in &cases {
+            let n = case.callers();
             match case {
-                Case::Stream(c) if c.plan.len() >= min_callers && c.plan.len() <= max_callers => {}
-                Case::Stream(_) => continue,
+                _ if n < min_callers || n > max_callers => continue,
+                Case::Stream(_) => {}
                 _ if others => {}
                 _ => continue,
             }
             let t0 = std::time::Instant::now();
             let (es, capped) = explore(bound, 200_000_000, |ch| run_case(&g, case, ch));
             capped_any |= capped;
-            per_cfg.push(json!({"case": format!("{case:?}"), "all_cut_points": all_cuts, "deviation_bound": bound, "executions": es.executions, "per_deviation_count": es.per_bound, "choice_points": es.choice_points, "max_trace": es.max_trace, "capped": capped, "wall_s": t0.elapsed().as_secs_f64()}));
+            per_cfg.push(json!({"case": format!("{case:?}"), "all_cut_points": all_cuts, "full_reply_grammar": full_shapes, "deviation_bound": bound, "executions": es.executions, "per_deviation_count": es.per_bound, "choice_points": es.choice_points, "max_trace": es.max_trace, "capped": capped, "wall_s": t0.elapsed().as_secs_f64()}));
             eprintln!("{case:?} all_cuts={all_cuts} bound={bound}: {} executions {:?} in {:.1}s", es.executions, es.per_bound, t0.elapsed().as_secs_f64());
         }
     }
